@@ -564,6 +564,10 @@ def rule_R5(chk, repo, rid='C05.R5'):
         fi = repo.func(q)
         srt = [s for s in ast.walk(fi.node) if isinstance(s, ast.Assign) and norm(s.targets[0]) == 'self.opics' and
                isinstance(s.value, ast.Call) and norm(s.value.func) == 'sorted']
+        # ... or sorted in place as the last statement of the method
+        last = [b_ for b_ in fi.node.body if not (isinstance(b_, ast.Expr) and isinstance(b_.value, ast.Constant))][-1:]
+        srt += [b_ for b_ in last if isinstance(b_, ast.Expr) and isinstance(b_.value, ast.Call) and
+                norm(b_.value.func) == 'self.opics.sort' and not b_.value.args and not b_.value.keywords]
         chk.ob(rid, where(repo, fi, fi.node), f'{fi.name.strip("_")} of OpGraphEdge: the list of (id, coefficient) pairs is stored sorted',
                len(srt) == 1, '', key=f'{rid}|{q}|sorted')
         n += 1
